@@ -11,7 +11,11 @@ Tie K: `visit_Constant` (real visitor objects of the three backends) against `re
        real booking emitters against the model's lines; stored constants: queries whose value is one of their
        numeric constants (conditional expressions nested to depth 3 under random tests, as one column, in tuples and
        dicts) — the conversions each constant undergoes on its way into the column, read off the generated loop
-       body, against the model's (`Carrier.columnPaths`).
+       body, against the model's (`Carrier.columnPaths`); operands: 29 expression templates (a constant after binary `-`/`+`,
+       under unary signs, inside `**`, as method / function argument, in comparisons, in arms and test of a conditional)
+       with negative numbers as one Constant node AND as the parser's UnaryOp(USub, Constant) — the right-hand side of the
+       column assignment against the model's text (`renderE`), tokenized / parsed / compared by the Lean driver (`ExprOk`);
+       the operator tables of the translator are regenerated into C18Tables.lean (`emittedOps`); the First() message line.
 Oracle: the decidable Spec (`OutcomeOk`, `constAfter`, `nameAt`, `roundsTo`) evaluated by the Lean
        driver on what the IMPLEMENTATION emitted; and g++ itself: the emitted literals are compiled
        into an echo program whose bytes / bits / types are compared with the Python values; for stored constants
@@ -36,7 +40,7 @@ from pathlib import Path
 from typing import Any, Dict, List, Optional, Tuple
 
 ID = "C18"
-LEAN_MODULES = ["FaxVerif.C18.Theorems"]
+LEAN_MODULES = ["FaxVerif.C18.Theorems", "FaxVerif.C18.TheoremsContext", "FaxVerif.C18.TheoremsDigits"]
 LEAN_SOURCES = ["FaxVerif/C18", "FaxVerif/Generated/C18Tables.lean"]
 DRIVER = "FaxVerif/C18/Driver.lean"
 THEOREMS = [
@@ -79,6 +83,27 @@ THEOREMS = [
     "FaxVerif.C18.names_roundtrip",
     "FaxVerif.C18.names_roundtrip_trigraphs",
     "FaxVerif.C18.names_roundtrip_on_repaired_inputs",
+    # a constant as an operand (TheoremsContext.lean)
+    "FaxVerif.C18.emitted_ops_ok",
+    "FaxVerif.C18.emitted_ops_are_the_models",
+    "FaxVerif.C18.operand_tokens",
+    "FaxVerif.C18.operand_tokens_in_context",
+    "FaxVerif.C18.operand_lexes_in_context",
+    "FaxVerif.C18.const_context_safe",
+    "FaxVerif.C18.const_ok_context_safe_partial",
+    "FaxVerif.C18.glued_sign_counterexample",
+    "FaxVerif.C18.exprok_witnesses",
+    "FaxVerif.C18.int_literal_type",
+    "FaxVerif.C18.int_literal_type_boundaries",
+    "FaxVerif.C18.first_message_roundtrip",
+    # decimal digits of a double literal (TheoremsDigits.lean)
+    "FaxVerif.C18.seventeen_digits_round_trip",
+    "FaxVerif.C18.seventeen_digits_round_trip_at_binade_boundary",
+    "FaxVerif.C18.digits_vs_bits",
+    "FaxVerif.C18.fifteen_digits_do_not",
+    "FaxVerif.C18.seventeen_digit_witnesses",
+    "FaxVerif.C18.fifteen_digits_counterexample",
+    "FaxVerif.C18.sixteen_digits_counterexample",
 ]
 RULE = (
     "unit stream: constants of every kind handed to visit_Constant of the real visitors — strings over an alphabet "
@@ -93,7 +118,15 @@ RULE = (
     "fractional float / integral float / bool in the two arms first, then random trees; tests drawn from 12 comparisons on "
     "pt()/eta() combined with and/or/not; negative numbers as one Constant node or as the parser's UnaryOp; one column, tuple or "
     "dict; 25% through qastle), judged by StoredOk on the conversion chain read off the generated loop body and by running the "
-    "compiled loop body on 4 mock objects. A case is non-trivial when the constant is none of the six the repo's tests use in kind and shape: "
+    "compiled loop body on 4 mock objects. operand stream: 29 expression templates over j.pt(), j.eta() and 1-3 numeric constants (after binary -/+, "
+    "* and /, under unary - and +, nested signs, inside **, as argument of a method / of sin / cos, in comparisons, in the arms and the test of a "
+    "conditional), every template first with a negative float and a negative int both as one Constant node and as UnaryOp(USub, Constant), and a "
+    "positive float under UnaryOp(UAdd), then random constants (ints of the 32-bit range, floats as in the unit stream, -0.0, +-2.5e-07, +-1e22, "
+    "subnormals, -DBL_MAX) and forms, 20% through qastle; judged by ExprOk (Lean tokenizer with maximal munch + precedence parser + comparison with "
+    "the query's expression) on the right-hand side of the column assignment, and by g++ running the generated loop body on 4 mock objects against "
+    "Python's value of the same lambda (4 ulp for pow / sin / cos). unit stream additionally: ContextSafe of every emitted constant text. first-message "
+    "stream: First() over a bank named by a generated string — the throw line must be one string literal (both dialects, Lean lexer and g++) followed by `);`. "
+    "A case is non-trivial when the constant is none of the six the repo's tests use in kind and shape: "
     "a string with a character outside [A-Za-z0-9_ ], an int with |n|>9, a float whose repr has an exponent or more "
     "than 4 characters, a refusal, or any pipeline/book case with such a constant; distinct = distinct (stream, "
     "position, backend, constant)."
@@ -105,6 +138,7 @@ TRUSTED_BASE = [
     "g++ converts a decimal floating literal to the nearest double (checked bit-for-bit on the sample by the echo program)",
     "UTF-8 as the encoding Python writes the generated files in and g++ reads them in; strings are modelled as lists of Unicode scalar values",
     "the harness tools/props/c18.py (generators, anchors that locate a constant in a generated line, canonicalisation)",
+    "operands: the C++ tokenizer (maximal munch over the punctuators of [lex.operators] without digraphs and <=>; pp-numbers; identifiers; string literals) and the precedence parser of Expr.lean (unary sign > * / % > + - > relational > equality, left associative, calls, static_cast) as transcribed; validated on every run by g++ compiling and running the same generated loop bodies, whose results are compared with Python's evaluation of the query's lambda",
     "stored constants: the C++ arithmetic conversions as transcribed in Spec.lean (convTo: LP64, binary64, truncation toward zero, int->double exact below 2^53), the harness's reader of declarations / assignments / static_casts of the generated loop body (a form it does not know is a broken correspondence, never a pass), and the mock object + g++ run that checks both on every case",
 ]
 ASSUMPTIONS = [
@@ -405,6 +439,23 @@ def probe_homomorphism(rows: List[Tuple[int, List[int]]]) -> str:
     return "ok"
 
 
+def probe_operator_tables() -> Dict[str, List[str]]:
+    """the operator texts of the translator's three tables (sorted; a table that is gone or holds something that is
+    not a text is reported as an `unrecognised …` entry, which no theorem over the table accepts)"""
+    out: Dict[str, List[str]] = {}
+    try:
+        import func_adl_xAOD.common.ast_to_cpp_translator as T
+    except Exception as e:
+        return {k: ["unrecognised: import failed " + type(e).__name__] for k in ("binary", "unary", "compare")}
+    for k, attr in (("binary", "_known_binary_operators"), ("unary", "_known_unary_operators"), ("compare", "compare_operations")):
+        d = getattr(T, attr, None)
+        if not isinstance(d, dict) or not d:
+            out[k] = ["unrecognised: no table " + attr]
+            continue
+        out[k] = sorted(v if isinstance(v, str) else "unrecognised: " + repr(v)[:40] for v in d.values())
+    return out
+
+
 def _segments(line1: str, line2: Optional[str]) -> List[Tuple[str, str]]:
     """Split a probed line at the sentinels. `line2` is the same line probed with names that carry
     a quote and a backslash after the sentinel, to tell a verbatim copy from an escaped one."""
@@ -497,6 +548,7 @@ def translate(ctx):
         p = probe_lines(b)
         book[b], fill[b] = p["book"], p["fill"]
     homo = probe_homomorphism(rows)
+    ops = probe_operator_tables()
     _LINES_CACHE["book"], _LINES_CACHE["fill"], _LINES_CACHE["rows"], _LINES_CACHE["homomorphic"] = book, fill, rows, homo
     rows_s = ", ".join("(%d, [%s])" % (c, ", ".join(str(x) for x in img)) for c, img in rows)
     content = "\n".join(
@@ -527,6 +579,12 @@ def translate(ctx):
             ),
             "",
             lean_seg_table("fillLines", fill, "/-- the same for `*_ttree_fill.emit` -/"),
+            "",
+            "/-- The operator texts of `_known_binary_operators`, `_known_unary_operators` and `compare_operations`",
+            "(common/ast_to_cpp_translator.py): what the translator writes directly before an operand. -/",
+            "def binaryOps : List String := [" + ", ".join(lean_str(x) for x in ops["binary"]) + "]",
+            "def unaryOps : List String := [" + ", ".join(lean_str(x) for x in ops["unary"]) + "]",
+            "def compareOps : List String := [" + ", ".join(lean_str(x) for x in ops["compare"]) + "]",
             "",
             "end FaxVerif.C18.Gen",
             "",
@@ -876,6 +934,7 @@ def unit_stream(ctx, consts: List[Tuple[Any, str]], label: str = "unit") -> List
             reqs.append({"op": "const", "c": cj})
             reqs.append({"op": "spec", "c": cj, "out": out_json(r)})
             reqs.append({"op": "reprok", "c": cj})  # the facts trusted about repr(float), on this float
+            reqs.append({"op": "ctxsafe", "text": cp(r["ok"]["text"])} if "ok" in r else {"op": "ctxsafe", "text": cp("0")})
         recs.append(rec)
     ans = ctx.driver(DRIVER, reqs)
     for rec in recs:
@@ -890,7 +949,15 @@ def unit_stream(ctx, consts: List[Tuple[Any, str]], label: str = "unit") -> List
             if rec["cj"] is not None:  # repr(float) outside the modelled grammar: the trusted assumption is wrong
                 ctx.disagreement("repr-grammar", case, "text of the grammar [-]d+[.d+][e(+|-)d+]", repr(v))
             continue
-        m, s, x = ans[rec["i"]], ans[rec["i"] + 1], ans[rec["i"] + 2]
+        m, s, x, cs_ = ans[rec["i"]], ans[rec["i"] + 1], ans[rec["i"] + 2], ans[rec["i"] + 3]
+        if "ok" in r and "bad" not in cs_ and not cs_.get("holds", False):
+            ctx.violation(
+                key=f"ctxsafe:{describe(v)['kind']}:{describe(v).get('v', describe(v).get('repr', describe(v).get('t')))}",
+                what=f"visit_Constant ({b}) emits `{r['ok']['text']}` for the constant {v!r}; as an operand this text is not context safe: {cs_.get('why')}",
+                case=case,
+                observed=r,
+                how="func_adl_xAOD.<backend>.query_ast_visitor.<visitor>().get_rep(ast.Constant(value)).as_cpp(); ContextSafe through the Lean driver (tokenize the text after every operator the translator emits)",
+            )
         if "bad" in m or "bad" in s or "bad" in x:
             if not any(b_.get("kind") == "driver" for b_ in ctx.broken):
                 ctx.broken.append({"kind": "driver-answer", "case": case, "answers": [m, s, x]})
@@ -1850,6 +1917,7 @@ def literal_paths(body: List[str], cols: Dict[str, str]) -> Optional[List[Dict[s
 
 STORED_MOCK_HEAD = r"""#include <cstdio>
 #include <cstring>
+#include <cmath>
 #include <string>
 using std::string;
 static int IDX = 0;
@@ -1863,7 +1931,8 @@ static void show(float v){ printf("%d N float ", IDX); hx(&v, sizeof v); }
 static void show(double v){ printf("%d N double ", IDX); hx(&v, sizeof v); }
 static void show(bool v){ printf("%d N bool ", IDX); hx(&v, sizeof v); }
 static void show(const std::string& s){ printf("%d S string ", IDX); hx(s.data(), s.size()); }
-struct J { double _pt, _eta; double pt() const { return _pt; } double eta() const { return _eta; } };
+struct J { double _pt, _eta; double pt() const { return _pt; } double eta() const { return _eta; }
+  double zzq(double a) const { return a; } double zzq(double a, double b) const { return a + 2.0 * b; } };
 struct MockTree { void Fill(){} };
 static MockTree g_tree; static MockTree* myTree = &g_tree; static MockTree* tree(const char*){ return &g_tree; }
 """
@@ -2065,6 +2134,433 @@ def stored_stream(ctx, cases: List[Dict[str, Any]], workers: int = 4):
 
 def stored_case_from_json(case: Dict[str, Any]) -> Dict[str, Any]:
     return {"backend": case["backend"], "layout": case["layout"], "ks": [carrier_unjson(k) for k in case["exprs"]], "qastle": case.get("via") == "qastle"}
+
+
+# --------------------------------------------------------------------------------------------
+# operand stream: a constant as an OPERAND — directly after a binary `-` / `+`, under a unary sign, inside `**`, as a
+# function / method argument, in a comparison, in the arms and the test of a conditional. The emitted TEXT is judged
+# by a real C++ tokenizer (maximal munch: `--`, `++`, `->` … are single tokens) — the Lean one (`ExprOk`: tokenize,
+# parse, compare with the query's expression) and g++ (the loop body compiled and run on mock objects).
+# --------------------------------------------------------------------------------------------
+# expression templates: ("leaf", method) | ("C", i) | ("un", op, e) | ("bin", op, a, b) | ("pow", a, b) |
+# ("cmp", op, a, b) | ("call", name, [args]) (name `zzq`: a method of the object; else a math function) | ("ite", t, a, b)
+_PT, _ETA = ("leaf", "pt"), ("leaf", "eta")
+OPERAND_TEMPLATES: Dict[str, Any] = {
+    "sub_right": ("bin", "-", _PT, ("C", 0)),
+    "add_right": ("bin", "+", _PT, ("C", 0)),
+    "mul_right": ("bin", "*", _PT, ("C", 0)),
+    "div_right": ("bin", "/", _PT, ("C", 0)),
+    "sub_left": ("bin", "-", ("C", 0), _PT),
+    "add_left": ("bin", "+", ("C", 0), _ETA),
+    "neg": ("un", "-", ("C", 0)),
+    "pos": ("un", "+", ("C", 0)),
+    "neg_neg": ("un", "-", ("un", "-", ("C", 0))),
+    "sub_neg": ("bin", "-", _PT, ("un", "-", ("C", 0))),
+    "add_pos": ("bin", "+", _PT, ("un", "+", ("C", 0))),
+    "sub_sub": ("bin", "-", ("bin", "-", _PT, ("C", 0)), ("C", 1)),
+    "sub_of_sub": ("bin", "-", _PT, ("bin", "-", ("C", 0), ("C", 1))),
+    "const_sub_const": ("bin", "-", ("C", 0), ("C", 1)),
+    "const_add_const": ("bin", "+", ("C", 0), ("C", 1)),
+    "mul_add": ("bin", "+", ("bin", "*", ("C", 0), _PT), ("C", 1)),
+    "pow_base": ("pow", ("C", 0), ("C", 1)),
+    "pow_exp": ("pow", _PT, ("C", 0)),
+    "pow_of_sub": ("pow", ("bin", "-", _PT, ("C", 0)), ("C", 1)),
+    "cmp_sub": ("cmp", ">", ("bin", "-", _PT, ("C", 0)), ("C", 1)),
+    "cmp_right": ("cmp", "<", _ETA, ("C", 0)),
+    "cmp_left": ("cmp", ">=", ("C", 0), _ETA),
+    "arg": ("call", "zzq", [("C", 0)]),
+    "arg2": ("call", "zzq", [("C", 0), ("bin", "-", _PT, ("C", 1))]),
+    "arg_sub": ("call", "zzq", [("bin", "-", _ETA, ("C", 0))]),
+    "fn_arg": ("call", "sin", [("C", 0)]),
+    "fn_arg_sub": ("call", "cos", [("bin", "-", _ETA, ("C", 0))]),
+    "ite_arms": ("ite", ("cmp", ">", _PT, ("C", 0)), ("bin", "-", _PT, ("C", 1)), ("bin", "+", _ETA, ("C", 2))),
+    "ite_test": ("ite", ("cmp", ">", ("bin", "-", _ETA, ("C", 0)), ("C", 1)), _PT, ("un", "-", ("C", 2))),
+}
+OPERAND_POW = {"pow_base", "pow_exp", "pow_of_sub"}  # constants kept small: Python raises where C++ returns inf / nan
+OPERAND_LIBM = OPERAND_POW | {"fn_arg", "fn_arg_sub"}  # compared up to 4 ulp (two math libraries)
+OPERAND_NONZERO = {"div_right"}
+OPERAND_INT_PAIR = {"const_sub_const", "const_add_const", "sub_of_sub"}  # int (op) int stays an int in C++: small values
+
+
+def tpl_nconst(t) -> int:
+    if t[0] == "C":
+        return t[1] + 1
+    return max([0] + [tpl_nconst(x) for x in t[1:] if isinstance(x, tuple)] + [tpl_nconst(y) for x in t[1:] if isinstance(x, list) for y in x])
+
+
+def tpl_src(t, forms: List[str]) -> str:
+    k = t[0]
+    if k == "leaf":
+        return f"j.{t[1]}()"
+    if k == "C":
+        return {"node": "__K%d__", "unary": "(-__K%d__)", "uplus": "(+__K%d__)"}[forms[t[1]]] % t[1]
+    if k == "un":
+        return f"({t[1]}{tpl_src(t[2], forms)})"
+    if k == "bin":
+        return f"({tpl_src(t[2], forms)} {t[1]} {tpl_src(t[3], forms)})"
+    if k == "pow":
+        return f"({tpl_src(t[1], forms)} ** {tpl_src(t[2], forms)})"
+    if k == "cmp":
+        return f"({tpl_src(t[2], forms)} {t[1]} {tpl_src(t[3], forms)})"
+    if k == "call":
+        args = ", ".join(tpl_src(a, forms) for a in t[2])
+        return f"j.zzq({args})" if t[1] == "zzq" else f"{t[1]}({args})"
+    if k == "ite":
+        return f"({tpl_src(t[2], forms)} if {tpl_src(t[1], forms)} else {tpl_src(t[3], forms)})"
+    raise ValueError(k)
+
+
+def tpl_lean(t, forms: List[str], consts: List[Any], var: Tuple[str, bool]) -> Optional[Dict[str, Any]]:
+    """the query's expression for the Lean Spec (None: a node kind the Lean expression language does not have);
+    var = (loop variable, is it a pointer?)"""
+    k = t[0]
+    if k == "leaf":
+        return {"leaf" if var[1] else "leafdot": [cp(var[0]), cp(t[1])]}
+    if k == "C":
+        f, v = forms[t[1]], consts[t[1]]
+        if f == "unary":
+            return {"un": ["neg", {"c": const_json(-v)}]}
+        if f == "uplus":
+            return {"un": ["pos", {"c": const_json(v)}]}
+        return {"c": const_json(v)}
+    if k == "un":
+        e = tpl_lean(t[2], forms, consts, var)
+        return None if e is None else {"un": ["neg" if t[1] == "-" else "pos", e]}
+    if k in ("bin", "cmp"):
+        a, b = tpl_lean(t[2], forms, consts, var), tpl_lean(t[3], forms, consts, var)
+        return None if a is None or b is None else {k: [t[1], a, b]}
+    if k == "pow":
+        a, b = tpl_lean(t[1], forms, consts, var), tpl_lean(t[2], forms, consts, var)
+        return None if a is None or b is None else {"pow": [a, b]}
+    return None
+
+
+class _OpObj(_MockObj):
+    def zzq(self, *a):
+        return float(a[-1]) if len(a) == 1 else float(a[0]) + 2.0 * float(a[1])
+
+
+def operand_value(src: str, names: Dict[str, Any], obj: Tuple[float, float]) -> Any:
+    """what Python makes of the lambda body on that object; ('raises', class) when Python has no value"""
+    body = build_ast(src, names)
+    fn = eval(compile(ast.fix_missing_locations(ast.Expression(body=body)), "<operand>", "eval"), {"sin": math.sin, "cos": math.cos})
+    try:
+        return fn(_OpObj(*obj))
+    except (ZeroDivisionError, OverflowError, ValueError) as e:
+        return ("raises", type(e).__name__)
+
+
+def gen_operand_const(rng, tname: str, idx: int) -> Any:
+    if tname in OPERAND_POW:
+        if tname == "pow_base" and idx == 1 or tname == "pow_of_sub" and idx == 1:
+            return rng.choice([2, 3, 2, 1, 0])
+        return rng.choice([0.5, 1.5, 2.0, -1.5, 2, 3, -2, 0.25, -0.75, 2.5e-07, -2.5e-07, 7, -3])
+    if tname in OPERAND_INT_PAIR and rng.random() < 0.5:
+        return rng.randint(-30000, 30000)
+    while True:
+        r = rng.random()
+        if r < 0.4:
+            v = gen_int32(rng)
+        elif r < 0.55:
+            v = rng.choice([-2.5e-07, 2.5e-07, -1.5e-3, -0.0, 0.0, -1.0, -2.5, 1e22, -1e22, -1e-320, 5e-324, -1.7976931348623157e308, -0.1, -1.5])
+        else:
+            v = gen_finite_float(rng)
+        if tname in OPERAND_NONZERO and v == 0:
+            continue
+        if tname in OPERAND_INT_PAIR and type(v) is int and abs(v) > 10**9:
+            continue
+        if v == -(2**31) and type(v) is int and tname in ("neg", "pos", "neg_neg"):
+            continue  # -(-2^31) is not an int: integer overflow, not a question about constants
+        return v
+
+
+def is_negative(v: Any) -> bool:
+    return type(v) in (int, float) and (v < 0 or (type(v) is float and math.copysign(1.0, v) < 0))
+
+
+def gen_operand_forms(rng, consts: List[Any], prefer: Optional[str] = None) -> List[str]:
+    out = []
+    for v in consts:
+        if is_negative(v) and v != -(2**31):
+            out.append(prefer if prefer in ("node", "unary") else rng.choice(["unary", "unary", "node"]))
+        elif not is_negative(v):
+            out.append("uplus" if (prefer == "uplus" or rng.random() < 0.15) else "node")
+        else:
+            out.append("node")
+    return out
+
+
+def gen_operand_cases(ctx, n: int) -> List[Dict[str, Any]]:
+    rng = ctx.rng
+    out = []
+    names = list(OPERAND_TEMPLATES)
+    # every template x (negative float through the parser's unary minus, negative float as one node, negative int
+    # both ways, positive under a unary plus) first; then random constants and forms
+    i = 0
+    for tn in names:
+        for kind, prefer in (("nf", "unary"), ("nf", "node"), ("ni", "unary"), ("ni", "node"), ("pf", "uplus")):
+            nc = tpl_nconst(OPERAND_TEMPLATES[tn])
+            consts = []
+            for k in range(nc):
+                for _ in range(200):
+                    v = gen_operand_const(rng, tn, k)
+                    ok = {"nf": type(v) is float and is_negative(v), "ni": type(v) is int and v < 0 and v != -(2**31), "pf": type(v) is float and not is_negative(v)}[kind]
+                    if ok or tn in OPERAND_POW:
+                        break
+                consts.append(v)
+            out.append({"backend": list(BACKENDS)[i % 3], "template": tn, "consts": consts, "forms": gen_operand_forms(rng, consts, prefer), "qastle": False})
+            i += 1
+    while len(out) < n:
+        tn = names[i % len(names)]
+        nc = tpl_nconst(OPERAND_TEMPLATES[tn])
+        consts = [gen_operand_const(rng, tn, k) for k in range(nc)]
+        out.append({"backend": list(BACKENDS)[(i // len(names) + i) % 3], "template": tn, "consts": consts, "forms": gen_operand_forms(rng, consts), "qastle": rng.random() < 0.2})
+        i += 1
+    return out[: max(n, len(names) * 5)]
+
+
+def operand_names(c: Dict[str, Any]) -> Dict[str, Any]:
+    return {"__K%d__" % k: (-v if f == "unary" else v) for k, (v, f) in enumerate(zip(c["consts"], c["forms"]))}
+
+
+def operand_query(c: Dict[str, Any]) -> Tuple[str, str]:
+    body = tpl_src(OPERAND_TEMPLATES[c["template"]], c["forms"])
+    return body, f"Select(SelectMany(EventDataset('x'), lambda e: e.{BACKENDS[c['backend']]['coll']}('J')), lambda j: {body})"
+
+
+def close_enough(want: Any, got: Any, ulps: int) -> bool:
+    if same_number(want, got):
+        return True
+    if isinstance(want, float) and isinstance(got, float):
+        if want != want:
+            return got != got
+        if want in (math.inf, -math.inf) or got in (math.inf, -math.inf) or got != got:
+            return want == got
+        if ulps and (want < 0) == (got < 0):
+            a, b = bits_of(abs(want)), bits_of(abs(got))
+            return abs(a - b) <= ulps
+    return False
+
+
+def operand_stream(ctx, cases: List[Dict[str, Any]], workers: int = 4):
+    staged = []
+    for c in cases:
+        b, tn = c["backend"], c["template"]
+        body_src, src = operand_query(c)
+        names = operand_names(c)
+        a = build_ast(src, names)
+        via = "ast"
+        if c.get("qastle"):
+            a2 = qastle_roundtrip(a)
+            if a2 is not None:
+                a, via = a2, "qastle"
+        r = run_query(b, a)
+        ctx.check_time()
+        case = {"stream": "operand", "backend": b, "template": tn, "via": via, "forms": c["forms"], "consts": [describe(v) for v in c["consts"]], "query": src, "constant_nodes": {n_: repr(v) for n_, v in names.items()}}
+        ctx.count(f"operand:backend:{b}")
+        ctx.count(f"operand:template:{tn}")
+        ctx.count(f"operand:via:{via}")
+        for v, f in zip(c["consts"], c["forms"]):
+            ctx.count(f"operand:form:{f}:{type(v).__name__}:{'neg' if is_negative(v) else 'nonneg'}")
+        ctx.case(["operand", b, tn, c["forms"], case["consts"]], True, {"backend": b, "query": src, "constants": case["constant_nodes"]})
+        key = "operand:%s:%s:%s:%s" % (b, tn, ",".join(c["forms"]), ",".join(repr(v) for v in c["consts"]))
+        st = {"c": c, "case": case, "key": key, "r": r, "body_src": "lambda j: " + body_src, "names": names}
+        staged.append(st)
+        if "err" in r:
+            ctx.count("operand:impl-error:" + r["err"])
+            ctx.violation(key=key, what=f"a query with numeric constants as operands was refused on {b}: {r['err']}: {r.get('msg')} — {src} with {case['constant_nodes']!r}", case=case, observed=r, how="apply_ast_transformations + write_cpp_files on the query of `case`")
+            continue
+        lb = loop_body(r["files"][BACKENDS[b]["main"]])
+        cols = column_decls(b, r["files"])
+        if lb is None or len(cols) != 1:
+            ctx.disagreement("operand-shape", case, "a range-for over the collection and one column declaration", {"loop": lb is not None, "columns": cols})
+            continue
+        st["var"], st["body"], st["cols"] = lb[0], lb[1], cols
+        # the right-hand side that fills the column, when the whole expression is one C++ expression
+        rhs = [m.group(1) for l in lb[1] for m in [re.match(r"^" + re.escape(cols[0][0]) + r" = (.*);$", l, re.S)] if m]
+        st["rhs"] = rhs[0] if len(rhs) == 1 else None
+    # --- the Lean side: tokenize + parse the emitted expression, compare with the query's; the model's own text
+    reqs: List[Dict[str, Any]] = []
+    for st in staged:
+        if st.get("rhs") is None:
+            continue
+        ptr = re.search(r"\b" + re.escape(st["var"]) + r"->", "\n".join(st["body"])) is not None
+        e = tpl_lean(OPERAND_TEMPLATES[st["c"]["template"]], st["c"]["forms"], st["c"]["consts"], (st["var"], ptr))
+        if e is None:
+            continue
+        st["i"] = len(reqs)
+        reqs.append({"op": "exprok", "e": e, "text": cp(st["rhs"])})
+        reqs.append({"op": "expr", "e": e})
+    ans = ctx.driver(DRIVER, reqs)
+    # the tie: the model's text against the implementation's — equal, or (second driver call, only for those that
+    # differ) the same expression tree: redundant parentheses and blanks are not what the property talks about
+    differ = [st for st in staged if "i" in st and "bad" not in ans[st["i"] + 1] and uncp(ans[st["i"] + 1].get("text") or []) != st["rhs"]]
+    same = ctx.driver(DRIVER, [{"op": "exprsame", "a": ans[st["i"] + 1].get("text") or [], "b": cp(st["rhs"])} for st in differ])
+    for st, sm in zip(differ, same):
+        st["same_tree"] = bool(sm.get("same"))
+        ctx.count("operand:tie:" + ("same-tree" if st["same_tree"] else "different"))
+    for st in staged:
+        if "i" not in st:
+            continue
+        s_, m_ = ans[st["i"]], ans[st["i"] + 1]
+        if "bad" in s_ or "bad" in m_:
+            if not any(b_.get("kind") in ("driver", "driver-answer") for b_ in ctx.broken):
+                ctx.broken.append({"kind": "driver-answer", "case": st["case"], "answers": [s_, m_]})
+            continue
+        b = st["c"]["backend"]
+        ctx.count("operand:spec:" + ("holds" if s_.get("holds") else "fails"))
+        if not s_.get("holds", False):
+            ctx.violation(
+                key=st["key"],
+                what=f"on {b}: `{st['case']['query']}` with the constant node(s) {st['case']['constant_nodes']!r} fills its column with `{st['rhs']}`: {s_.get('why')}",
+                case=st["case"],
+                observed={"emitted_expression": st["rhs"], "tokens": s_.get("tokens"), "body": st["body"]},
+                how="apply_ast_transformations + write_cpp_files on the query of `case`; the right-hand side of the column assignment, tokenized (maximal munch), parsed and compared with the query's expression by the Lean driver (ExprOk)",
+            )
+        mt = uncp(m_.get("text")) if m_.get("text") is not None else None
+        if mt != st["rhs"] and not st.get("same_tree"):
+            ctx.disagreement("operand-text", st["case"], mt if mt is not None else m_, st["rhs"])
+        elif mt == st["rhs"]:
+            ctx.count("operand:tie:same-text")
+    # --- g++ as the judge: the loop body compiled and run on the mock objects
+    jobs = [(st, obj) for st in staged if "body" in st for obj in MOCK_OBJECTS]
+    chunks = [jobs[i : i + 160] for i in range(0, len(jobs), 160)]
+
+    def run_chunk(chunk):
+        return run_stored_echo([stored_block(i, st["var"], st["body"], st["cols"], obj) for i, (st, obj) in enumerate(chunk)])
+
+    with concurrent.futures.ThreadPoolExecutor(max_workers=workers) as ex:
+        results = list(ex.map(run_chunk, chunks))
+    for chunk, res in zip(chunks, results):
+        if "compile_error" in res:
+            done = set()
+            for st, obj in chunk:  # which query? one at a time (rare path)
+                if id(st) in done:
+                    continue
+                done.add(id(st))
+                one = run_stored_echo([stored_block(0, st["var"], st["body"], st["cols"], obj)])
+                if "compile_error" in one:
+                    err = one["compile_error"]
+                    first = next((l for l in err.split("\n") if "error" in l), err[:200])
+                    ctx.violation(
+                        key=st["key"],
+                        what=f"g++ rejects the code generated on {st['c']['backend']} for `{st['case']['query']}` with the constant node(s) {st['case']['constant_nodes']!r}: {first.strip()[:200]} — body: {' '.join(st['body'])[:300]}",
+                        case=st["case"],
+                        observed={"g++": err[:400], "body": st["body"]},
+                        how="compile the generated loop body against a mock object with pt(), eta() and zzq()",
+                    )
+                    break
+            continue
+        for i, (st, obj) in enumerate(chunk):
+            got = res["out"].get(i, [])
+            want = operand_value(st["body_src"], st["names"], obj)
+            ctx.count("operand:g++:objects")
+            if isinstance(want, tuple):
+                ctx.count("operand:python-raises:" + want[1])
+                continue
+            shown = [(ty, shown_number(ty, raw)) for ty, raw in got]
+            ulps = 4 if st["c"]["template"] in OPERAND_LIBM else 0
+            if len(shown) != 1 or not close_enough(want, shown[0][1], ulps):
+                ctx.violation(
+                    key=st["key"],
+                    what=f"on {st['c']['backend']}: `{st['case']['query']}` with the constant node(s) {st['case']['constant_nodes']!r} on an object with pt()={obj[0]!r}, eta()={obj[1]!r} has the value {want!r}; the generated code, compiled with g++, puts {[f'{ty} {v!r}' for ty, v in shown]} into the column",
+                    case=dict(st["case"], object={"pt": obj[0], "eta": obj[1]}),
+                    observed={"column_receives": [f"{ty} {v!r}" for ty, v in shown], "query_value": repr(want), "body": st["body"]},
+                    how="apply_ast_transformations + write_cpp_files; compile the generated loop body against a mock object; print the column variable",
+                )
+    ctx.extra_cov["gpp_operand_bodies"] = len(jobs)
+    return staged
+
+
+def operand_case_from_json(case: Dict[str, Any]) -> Dict[str, Any]:
+    return {"backend": case["backend"], "template": case["template"], "consts": [value_of(d) for d in case["consts"]], "forms": list(case["forms"]), "qastle": case.get("via") == "qastle"}
+
+
+# --------------------------------------------------------------------------------------------
+# the First() message: the third place a string of the query lands in a C++ string literal (the text of the
+# query, with every string constant of it, inside `throw std::runtime_error("…")`)
+# --------------------------------------------------------------------------------------------
+FIRST_PREFIX = "First() called on an empty sequence ("
+FIRST_ANCHOR = "throw std::runtime_error("
+
+
+def first_message_cases(ctx, n: int) -> List[Dict[str, Any]]:
+    rng = ctx.rng
+    fixed = ['a"b', "a\\", "a??/", "x\ny", "café \U0001f600", "a'b", 'a\\"b', "???/", "tab\there", ");", '");//']
+    out = []
+    for i in range(n):
+        v = fixed[i] if i < len(fixed) else gen_str(rng, allow_nul=False)[:40]
+        if has_surrogate(v):
+            v = "x"
+        out.append({"backend": list(BACKENDS)[i % 3], "v": v, "qastle": i % 4 == 3})
+    return out
+
+
+def first_message_stream(ctx, cases: List[Dict[str, Any]]):
+    staged, reqs = [], []
+    for c in cases:
+        b, v = c["backend"], c["v"]
+        src = f"Select(EventDataset('x'), lambda e: e.{BACKENDS[b]['coll']}(__C__).Select(lambda j: j.pt()).First())"
+        a = build_ast(src, {"__C__": v})
+        via = "ast"
+        if c.get("qastle"):
+            a2 = qastle_roundtrip(a)
+            if a2 is not None:
+                a, via = a2, "qastle"
+        r = run_query(b, a)
+        ctx.check_time()
+        case = {"stream": "first-message", "backend": b, "via": via, "const": describe(v), "query": src}
+        ctx.count(f"first-message:backend:{b}")
+        ctx.case(["first-message", b, describe(v)], nontrivial_const(v), {"backend": b, "bank": v})
+        key = f"first-message:{b}:{v!r}"
+        if "err" in r:
+            ctx.violation(key=key, what=f"a First() query over the bank {v!r} was refused on {b}: {r['err']}: {r.get('msg')}", case=case, observed=r, how="apply_ast_transformations + write_cpp_files on the query of `case`")
+            continue
+        lines = [l.rstrip(" ") for l in r["files"][BACKENDS[b]["main"]].split("\n") if FIRST_ANCHOR in l]
+        if len(lines) != 1:
+            ctx.disagreement("first-message-line", case, "one line with " + FIRST_ANCHOR, lines)
+            continue
+        text = lines[0][lines[0].index(FIRST_ANCHOR) + len(FIRST_ANCHOR):]
+        staged.append((c, case, key, lines[0], len(reqs)))
+        reqs += [{"op": "lexstr", "text": cp(text), "tri": False}, {"op": "lexstr", "text": cp(text), "tri": True}]
+    ans = ctx.driver(DRIVER, reqs)
+    lits = []
+    for c, case, key, line, i in staged:
+        a0, a1 = ans[i], ans[i + 1]
+        if "bad" in a0 or "bad" in a1:
+            continue
+        m0, m1, rest = uncp(a0.get("v")), uncp(a1.get("v")), uncp(a0.get("rest"))
+        ok = m0 is not None and m0 == m1 and rest == ");" and m0.startswith(FIRST_PREFIX) and m0.endswith(")")
+        ctx.count("first-message:spec:" + ("holds" if ok else "fails"))
+        if not ok:
+            ctx.violation(
+                key=key,
+                what=f"on {c['backend']}: the line `{line.strip()}` generated for First() over the bank {c['v']!r} is not `throw std::runtime_error(<one string literal with the message>);` — read with C++17 lexing the literal denotes {m0!r}, with trigraph replacement {m1!r}, followed by {rest!r}",
+                case=case,
+                observed={"line": line, "message": m0, "message_with_trigraphs": m1, "rest": rest},
+                how="apply_ast_transformations + write_cpp_files on the query of `case`; lex the text after `throw std::runtime_error(` (Lean lexer, both dialects)",
+            )
+            continue
+        if repr(c["v"]) not in m0:  # the message is the text of the query: the bank name is in it as Python writes it
+            ctx.disagreement("first-message-content", case, "the message quotes the bank name as " + repr(c["v"]), m0)
+        lits.append((m0, line[line.index(FIRST_ANCHOR) + len(FIRST_ANCHOR): -2], c, case, key))
+    # g++ (both dialects) on the literals
+    for std in (None, "c++14"):
+        if not lits:
+            break
+        res = run_echo([("S", lit) for _, lit, _, _, _ in lits], std)
+        label = std or "default"
+        if "compile_error" in res:
+            for m0, lit, c, case, key in lits:
+                one = run_echo([("S", lit)], std)
+                if "compile_error" in one:
+                    ctx.violation(key=key, what=f"g++ ({label}) rejects the message literal `{lit}` of the First() check generated on {c['backend']} for the bank {c['v']!r}", case=case, observed=one["compile_error"][:300], how="compile the literal of the generated throw statement")
+                    break
+            continue
+        for k, (m0, lit, c, case, key) in enumerate(lits):
+            ctx.count(f"first-message:g++:{label}")
+            if res["out"].get(k) != ("S", m0.encode("utf-8")):
+                ctx.violation(key=key, what=f"compiled with g++ ({label}), the message literal `{lit}` of the First() check ({c['backend']}, bank {c['v']!r}) is {res['out'].get(k)}, the Lean lexer reads {m0!r}", case=case, observed=str(res["out"].get(k)), how="compile the literal of the generated throw statement")
 
 
 # --------------------------------------------------------------------------------------------
@@ -2288,8 +2784,11 @@ def corpus_stream(ctx):
     stored = [stored_case_from_json(c) for c in cs if c.get("stream") == "stored"]
     if stored:
         stored_stream(ctx, stored, 2)
+    operands = [operand_case_from_json(c) for c in cs if c.get("stream") == "operand"]
+    if operands:
+        operand_stream(ctx, operands, 2)
     for c in cs:
-        if c.get("stream") not in ("unit", "pipeline", "book", "stored"):
+        if c.get("stream") not in ("unit", "pipeline", "book", "stored", "operand"):
             run_case(ctx, c, report=True)
 
 
@@ -2316,6 +2815,10 @@ def run_case(ctx, case: Dict[str, Any], report: bool) -> int:
         echo_stream(ctx, [{"v": v, "impl": impl_const(v)}], 1, 1)
     elif st == "stored":
         stored_stream(ctx, [stored_case_from_json(case)], 1)
+    elif st == "operand":
+        operand_stream(ctx, [operand_case_from_json(case)], 1)
+    elif st == "first-message":
+        first_message_stream(ctx, [{"backend": case["backend"], "v": value_of(case["const"]), "qastle": case.get("via") == "qastle"}])
     elif st == "finding" or "kind" in case:
         f = replay_entry(ctx, {"input": case})
         if f is not None:
@@ -2360,6 +2863,11 @@ def run(ctx):
     stored_stream(ctx, gen_stored_cases(ctx, 900 if thorough else 72), workers)
     _tick(ctx, "stored")
     ctx.check_time()
+    operand_stream(ctx, gen_operand_cases(ctx, 1000 if thorough else 190), workers)
+    _tick(ctx, "operand")
+    first_message_stream(ctx, first_message_cases(ctx, 240 if thorough else 33))
+    _tick(ctx, "first-message")
+    ctx.check_time()
     book_stream(ctx, 9000 if thorough else 600)
     _tick(ctx, "book")
     names_pipeline_stream(ctx, 1500 if thorough else 90)
@@ -2376,6 +2884,7 @@ def run(ctx):
     ctx.extra_cov["exhaustive"] = False
     ctx.extra_cov["exhaustive_part"] = "as_cpp_string_literal on every single Unicode scalar value (1,112,064 characters) when regenerating the escape table; the booking/fill emitters of all three backends on sentinel names"
     ctx.extra_cov["populations"] = {
+        "operand_expressions": "every generated operand expression is inside the hypotheses of operand_tokens (well-formed constants, identifiers)",
         "inside_theorem_hypotheses": "every generated case: strings (all, compiled under both dialects), ints in the 32-bit range, finite floats, bools, refusals, names (all), operands of either sign after a minus, strings as bare columns and as (refused) arms of conditionals",
         "outside (defect exclusions)": "exercised only through the listed known findings: ints outside 32 bit, NUL through const char*",
     }
@@ -2401,6 +2910,10 @@ def search(ctx, broken):
             pipeline_stream(ctx, qrun_pipeline_cases(400) + pipeline_cases(ctx, 900))
         if not ctx.violations:
             stored_stream(ctx, gen_stored_cases(ctx, 300), 8)
+        if not ctx.violations:
+            operand_stream(ctx, gen_operand_cases(ctx, 600), 8)
+        if not ctx.violations:
+            first_message_stream(ctx, first_message_cases(ctx, 200))
         if not ctx.violations:
             book_stream(ctx, 1500)
             names_pipeline_stream(ctx, 150)
@@ -2495,7 +3008,11 @@ LEVEL_TEXT = (
     "text of the grammar of repr(float) is a C++ double literal of the same exact decimal value; ints of the 32-bit range, "
     "bools, refusals of inf/nan and unsupported kinds; bank names in any surrounding text; ALL tree/branch names in the "
     "regenerated booking lines of all three backends; every numeric constant that reaches a column through conditional expressions "
-    "of any depth keeps its value through the conversions on the way (carrier_stored_ok). Where the code violates the property the negation is proved on a "
+    "of any depth keeps its value through the conversions on the way (carrier_stored_ok); a constant AS AN OPERAND: for every operand expression "
+    "(method calls, constants, unary and binary operators, **, comparisons, any depth) the text the translator writes is lexed by maximal munch into exactly the tokens it was built from "
+    "(operand_tokens — no juxtaposition forms `--`, `++`, `->`, `-=` …), every constant text is ContextSafe after every operator of the translator's operator tables regenerated from "
+    "the source (const_context_safe), the type of a decimal integer literal at every magnitude (int_literal_type); in an abstract integer grid model of binary64, 17 significant digits "
+    "always round-trip and 15 do not (seventeen_digits_round_trip, fifteen_digits_do_not), with kernel-decided witnesses on the real rounding oracle. Where the code violates the property the negation is proved on a "
     "literal (int 3000000000, 2^64, NUL through const char*) and replayed on the real code; repaired "
     "defects (unescaped strings and names, inf/nan, trigraphs, a negative constant directly after '-', a string arm of a conditional expression) are replayed on every run as regressions. "
     "The model is tied to the code on every run by regenerated tables, by differential execution on thousands of constants "
@@ -2507,7 +3024,9 @@ LEVEL_NOTE = (
     "Sampled only: that the hand model equals the Python (differential execution), that repr(x) rounds to x (exact check per "
     "sample), that the Lean lexer equals g++'s (echo program). Excluded by explicit hypotheses and listed as findings: ints "
     "outside 32 bit, NUL through const char*. "
+    "Operands: operand_tokens is universal (tokenization); that the token sequence parses to the query's expression (ExprOk) is proved on witnesses only and evaluated on the implementation's text per case. "
+    "Digits: the 17-digit theorem is about an abstract grid model (integers scaled by a common factor); it is tied to the rounding oracle roundsTo by kernel-decided witnesses only. "
     "Stored constants: the theorem is about the model's conversion chains; that the generated code has these chains is sampled (chain read off the loop body + g++ run)."
 )
-TECHNIQUE = "Lean 4 theorems over a hand model and a Lean lexer of C++ literals + tables regenerated from the source + correspondence check against visit_Constant / the pipeline of all three backends + g++ echo of the emitted literals"
+TECHNIQUE = "Lean 4 theorems over a hand model, a Lean lexer of C++ literals and a Lean C++ tokenizer (maximal munch) + tables regenerated from the source + correspondence check against visit_Constant / the pipeline of all three backends + g++ echo of the emitted literals and g++ runs of the generated loop bodies"
 DESIGN_REF = "DESIGN.md §4 C18"
